@@ -2,8 +2,11 @@
 impl  = DWARFExprParser(DWARFStructs(le, fmt, addr)).parse_expr(list(bytes)) -> (op, op_name, args, offset), recursively
 bytes = Spec.C12Spec.encode_ops (extracted), spec = Spec.C12Spec.annotate, model = Model.C12Expr.parse_expr.
 Every run is exhaustive over all 256 opcodes x operand boundary values x the 8 configurations, and adds
-random sequences with nested entry-value blocks up to depth 5 plus a malformed stream (truncations,
-unknown opcodes, bad WASM tags) on which only model and implementation are compared."""
+random sequences with nested entry-value blocks up to depth 5; ill-formed expressions (a byte that is not an
+operation in opcode position, an entry-value / implicit-value block announced longer than what is left; behind
+well-formed operations, at every nesting depth) which have to be refused (C12_illformed_rejected); call histories on
+one parser object with the caller editing earlier results in place (C12_parse_history); plus a malformed stream
+(truncations, bad WASM tags) on which only model and implementation are compared."""
 from tools.lib.framework import impl_call
 
 CLAIMED = True
@@ -13,13 +16,24 @@ CONFIG = {'assumptions': [
     'configuration = (little_endian, address_size in {4,8}, dwarf_format in {32,64}), the domain DWARFStructs asserts; '
     'dwarf_version is left at its default (operand sizes in dwarf_expr.py do not depend on it)',
     'CPython recursion limit (nesting depth of entry-value blocks beyond ~300) is outside the model',
-    'unknown opcodes, truncated operands and DW_OP_WASM_location tags > 3 are outside the property (model vs '
-    'implementation only)']}
+    'ill-formed expressions of the forms of Spec bexpr (unassigned byte in opcode position; entry-value / implicit-value '
+    'block announced longer than the rest of the enclosing expression; at any depth) must be REFUSED: the verdict compared '
+    'in domain is accept/reject (any exception counts as refusal; the exception class is compared with the model as drift '
+    'only, the property does not state it)',
+    'parse_expr is observed as a function of (configuration, bytes): fresh parser objects per history case, the same '
+    'bytes parsed repeatedly, every mutable part of each returned result (args lists, blobs, nested op lists, the outer '
+    'list, the list passed in) edited in place by the caller between calls; every call must return the stateless parse',
+    'other malformed inputs (truncated fixed-size / LEB128 / typed operands, DW_OP_WASM_location tags > 3) are outside '
+    'the property (model vs implementation only)']}
 LEVEL = {'text': 'Machine-checked theorem: for every configuration, every list of well-formed operations of the DWARF 2-5 + '
                  'GNU/WASM table (any length, any nesting depth, every valid LEB128 encoding incl. non-minimal, blobs of any '
                  'length) the model of parse_expr returns exactly opcode, name, operand values and byte offsets, recursively; '
                  're-encoding corollary; the dispatch table and the name tables are regenerated from the live module on every '
                  'run and proved equal to the table written from the standard (vm_compute); names one-to-one with opcodes. '
+                 'Converse on the accept/reject boundary (C12_illformed_rejected): a byte outside the table in opcode '
+                 'position, or an entry-value / implicit-value block announced longer than the rest, behind any well-formed '
+                 'operations at any nesting depth, is refused; C12_parse_history: the answer depends on (configuration, '
+                 'bytes) only, observed on the implementation through call histories with caller-side edits of results. '
                  'The parse loop / operand readers are a transliteration pinned by an exhaustive correspondence over all 256 '
                  'opcodes x boundary operands x 8 configurations on every run plus random nested sequences.',
          'design_ref': '4.12',
@@ -34,7 +48,12 @@ RULE = ('cases: (a) exhaustive: for each of the 256 opcodes and each of the 8 co
         'minimal and padded encodings; blobs of length 0..1000; typed blobs 0..255; nested bodies to depth 5; all WASM '
         'tags), each followed by a DW_OP_nop to pin the consumed length; opcodes outside the table as raw bytes; '
         '(b) random sequences of 0..300 operations, nesting depth <= 5; (c) malformed: every truncation of some '
-        'sequences, unknown opcodes, bad WASM tags (out of domain). distinct = hash(kind, abstract); non-trivial = the '
+        'sequences, unknown opcodes, bad WASM tags (out of domain); (d) ill-formed, must be refused (in domain): every '
+        'byte outside the table in opcode position alone / behind well-formed operations / inside entry-value blocks to '
+        'depth 5, entry-value and implicit-value blocks announcing 1..2^64 bytes more than remain, at depth 0..5, padded '
+        'length fields, arbitrary bytes behind; (e) histories: two fresh parser objects, 1..3 expressions parsed 3..8 '
+        'times in a random order with at least one repetition, each result (and the input list) scrambled in place '
+        'after it was compared. distinct = hash(kind, abstract); non-trivial = the '
         'case contains an operand or at least two operations')
 
 CONFIGS = [(le, addr, fmt) for le in (1, 0) for addr in (4, 8) for fmt in (32, 64)]
@@ -238,6 +257,128 @@ def flat_ops(ops):
     return out
 
 
+# ------------------------------------------------------------------ ill-formed expressions (Spec bexpr) and histories
+def wrap_bad(rng, core, depth, nested_opcs, mk_pre, mk_rest):
+    """put an ill-formed expression inside [depth] entry-value blocks of the right announced length"""
+    b = core
+    for _ in range(depth):
+        b = ['inner', mk_pre(), rng.choice(nested_opcs), rng.choice([0, 0, 0, 1, 2]), b, mk_rest()]
+    return b
+
+
+def bad_depth(b):
+    return 1 + bad_depth(b[4]) if b[0] == 'inner' else 0
+
+
+def gen_bad(ctx, table, opcodes, with_operands):
+    rng = ctx.rng
+    cases = []
+    nested_opcs = sorted(o for o, (_, ks) in table.items() if ks == ['NESTED'])
+    block_opcs = nested_opcs + sorted(o for o, (_, ks) in table.items() if ks == ['BLOCK'])
+    lit0 = ['op', 0x30, []]
+
+    def mk_pre_for(cfg):
+        return lambda: [rand_op(rng, table, opcodes, with_operands, cfg, 0, 1) for _ in range(rng.choice([0, 0, 1, 2, 3]))]
+
+    def mk_rest():
+        return blob(rng, rng.choice([0, 0, 1, 2, 6]))
+    # a byte that is not an operation, in opcode position
+    for opc in range(256):
+        if opc in table:
+            continue
+        for i, cfg in enumerate(CONFIGS):
+            c = list(cfg)
+            cases.append(('bad', [c, ['opcode', [], opc, b'']]))
+            cases.append(('bad', [c, ['opcode', [lit0], opc, b'\x31']]))
+            cases.append(('bad', [c, ['inner', [], nested_opcs[i % len(nested_opcs)], 0, ['opcode', [], opc, b'\x30'], b'']]))
+        cfg = CONFIGS[opc % len(CONFIGS)]
+        mk_pre = mk_pre_for(cfg)
+        cases.append(('bad', [list(cfg), ['opcode', mk_pre(), opc, mk_rest()]]))
+        for depth in (2, 3, 5):
+            cases.append(('bad', [list(cfg), wrap_bad(rng, ['opcode', mk_pre(), opc, mk_rest()], depth, nested_opcs,
+                                                      mk_pre, mk_rest)]))
+    # a block announced longer than what is left
+    shorts = [(b'', 1), (b'\x50\x51', 3), (b'\x50\x51', 1), (b'\x96' * 127, 1), (b'\x96' * 126, 2), (b'\x30', 2**32),
+              (b'', 2**64)]
+    for opc in block_opcs:
+        for cfg in CONFIGS:
+            mk_pre = mk_pre_for(cfg)
+            for j, (body, excess) in enumerate(shorts):
+                for depth in range(0, MAXDEPTH + 1):
+                    plain = depth <= 1
+                    core = ['trunc', [] if plain else mk_pre(), opc, 0 if plain else rng.choice([0, 0, 1, 2]), excess, body]
+                    cases.append(('bad', [list(cfg), wrap_bad(rng, core, depth, nested_opcs,
+                                                              (lambda: []) if plain else mk_pre,
+                                                              (lambda: b'') if plain else mk_rest)]))
+    # random
+    unassigned = [o for o in range(256) if o not in table]
+    for _ in range(ctx.scale(300, 6000)):
+        cfg = rng.choice(CONFIGS)
+        mk_pre = mk_pre_for(cfg)
+        if rng.random() < 0.5:
+            core = ['opcode', mk_pre(), rng.choice(unassigned), mk_rest()]
+        else:
+            body = blob(rng, rng.choice([0, 1, 2, 5, 40, 127, 128, 300]))
+            core = ['trunc', mk_pre(), rng.choice(block_opcs), rng.choice([0, 0, 1, 2]),
+                    rng.choice([1, 1, 2, 3, 100, 127, 128, 2**14, 2**32, 2**64]), body]
+        cases.append(('bad', [list(cfg), wrap_bad(rng, core, rng.randint(0, MAXDEPTH), nested_opcs, mk_pre, mk_rest)]))
+    return cases
+
+
+def gen_hist(ctx, table, opcodes, with_operands):
+    rng = ctx.rng
+    c = [1, 8, 32]
+    cases = [
+        # a consumer resolving DW_OP_addrx in place; trimming a blob / a nested expression
+        ('hist', [c, [[['op', 0xa1, [['leb', uleb(5), 5]]], ['op', 0x23, [['leb', uleb(144), 144]]], ['op', 0x9f, []]]],
+                  [[0, 0], [0, 0], [1, 0], [0, 0]]]),
+        ('hist', [c, [[['nest', 0xa3, 0, [['op', 0x55, []], ['op', 0x96, []]]], ['op', 0x9e, [['blk', uleb(3), b'\xaa\xbb\xcc']]]]],
+                  [[0, 0], [0, 0]]]),
+    ]
+    for _ in range(ctx.scale(500, 8000)):
+        cfg = list(rng.choice(CONFIGS))
+        exprs = []
+        for _e in range(rng.choice([1, 1, 2, 3])):
+            n = rng.choice([1, 1, 2, 3, 5, 12])
+            exprs.append([rand_op(rng, table, opcodes, with_operands, cfg, 0, rng.choice([0, 1, 2, 3])) for _o in range(n)])
+        order = [[0 if rng.random() < 0.75 else 1, rng.randrange(len(exprs))] for _s in range(rng.randint(2, 6))]
+        order.append(list(rng.choice(order)))            # at least one (parser, expression) pair is repeated
+        if rng.random() < 0.5:
+            order.append(list(order[0]))
+        cases.append(('hist', [cfg, exprs, order]))
+    return cases
+
+
+def _scramble(ops):
+    """what a caller may do with a result it was handed: edit every mutable part in place (operand values,
+    blobs, nested operation lists, the args lists themselves, the outer list).  Immutable parts are left alone."""
+    for o in list(ops):
+        args = getattr(o, 'args', None)
+        if not isinstance(args, list):
+            continue
+        for i, a in enumerate(list(args)):
+            try:
+                if isinstance(a, list):
+                    if a and not isinstance(a[0], int):
+                        _scramble(list(a))           # the nested operations' own args
+                    if a:
+                        a.pop()
+                    a.insert(0, 0xEE)
+                    a.reverse()
+                elif isinstance(a, int):
+                    args[i] = a ^ 0x5a5a
+            except (TypeError, AttributeError):
+                pass
+        try:
+            args.append('edited-by-caller')
+        except (TypeError, AttributeError):
+            pass
+    try:
+        ops.clear()
+    except (TypeError, AttributeError):
+        pass
+
+
 # ------------------------------------------------------------------ case generation
 def corpus(ctx):
     """the deviations seen by reading (DESIGN 5), kept as fixed first cases"""
@@ -298,6 +439,9 @@ def gen(ctx):
         cases.append(('raw', [list(cfg), bytes([0xa3, 3, 0x30, 0x04, 0x30])]))        # unknown opcode inside a nested block
         cases.append(('raw', [list(cfg), bytes([0xa3, 5, 0x30])]))                    # nested block longer than the stream
         cases.append(('raw', [list(cfg), bytes([0x9e, 0xff, 0xff, 0xff, 0x7f, 1, 2])]))  # huge blob length
+    # (d) ill-formed expressions that must be refused; (e) call histories with the caller editing results
+    cases += gen_bad(ctx, table, opcodes, with_operands)
+    cases += gen_hist(ctx, table, opcodes, with_operands)
     return cases
 
 
@@ -334,6 +478,17 @@ def _parsers():
     return out
 
 
+def _new_parser(cfg):
+    from elftools.dwarf.dwarf_expr import DWARFExprParser
+    from elftools.dwarf.structs import DWARFStructs
+    return DWARFExprParser(DWARFStructs(little_endian=bool(cfg[0]), dwarf_format=cfg[2], address_size=cfg[1]))
+
+
+def _verdict(r):
+    """accept/reject: which exception refuses an ill-formed expression is not part of the property"""
+    return ['rejected'] if isinstance(r, (list, tuple)) and r and r[0] == 'err' else r
+
+
 def _impl(parsers, cfg, data):
     p = parsers[(int(cfg[0]), cfg[1], cfg[2])]
     return impl_call(lambda: ['ok', _conv_ops(p.parse_expr(list(data)))])
@@ -367,15 +522,23 @@ def evaluate(ctx, cases):
     table = _table(ctx)
     parsers = _parsers()
     reqs = []
+    slots = []
     cases = [('ops' if kind == 'reencode' else kind, a) for kind, a in cases]   # a replayed re-encode echo is an ops case
     for kind, a in cases:
+        slots.append(len(reqs))
         if kind in ('ops', 'trunc'):
             reqs.append(['case', a[0], a[1]])
         elif kind == 'raw':
             reqs.append(['raw', a[0], a[1]])
+        elif kind == 'bad':
+            reqs.append(['bad', a[0], a[1]])
+        elif kind == 'hist':
+            reqs += [['case', a[0], ops] for ops in a[1]]
         else:
             raise ValueError(kind)
-    answers = drv.batch(reqs)
+    flat_answers = drv.batch(reqs)
+    answers = [flat_answers[s:s + len(a[1])] if kind == 'hist' else flat_answers[s]
+               for (kind, a), s in zip(cases, slots)]
     # truncated streams need a second model call on the cut bytes
     cut_idx, cut_reqs = [], []
     for i, ((kind, a), ans) in enumerate(zip(cases, answers)):
@@ -419,6 +582,51 @@ def evaluate(ctx, cases):
             impl = _impl(parsers, cfg, data)
             ctx.bump('malformed', 'truncated')
             ctx.record('trunc', a, impl=impl, spec=model, model=model, in_domain=False, nontrivial=True)
+        elif kind == 'bad':
+            wf, data, why, model = ans
+            if not wf:
+                raise RuntimeError('C12 generator produced an ill-formed case outside the Coq wf_bad domain: %r' % (a,))
+            model = _norm(model)
+            impl = _impl(parsers, cfg, data)
+            ctx.bump('illformed', why)
+            ctx.bump('illformed_depth', bad_depth(a[1]))
+            # C12_illformed_rejected: refused, never reported as some sequence of operations
+            ctx.record('bad', a, impl=_verdict(impl), spec=['rejected'], model=_verdict(model), in_domain=True,
+                       nontrivial=True, key='illformed-%s-accepted' % why)
+            # which exception: model vs implementation only
+            ctx.record('raw', [cfg, data], impl=impl, spec=model, model=model, in_domain=False, nontrivial=len(data) > 1)
+        elif kind == 'hist':
+            exprs, order = a[1], a[2]
+            if not all(x[0] for x in ans):
+                raise RuntimeError('C12 generator produced a case outside the Coq wf domain: %r' % (a,))
+            datas = [x[2] for x in ans]
+            expected = [_norm(x[3]) for x in ans]
+            models = [_norm(x[4]) for x in ans]
+            objs = [_new_parser(cfg), _new_parser(cfg)]
+
+            def run():
+                out = []
+                for pi, ei in order:
+                    arg = list(datas[ei])
+                    r = objs[pi].parse_expr(arg)
+                    out.append(_conv_ops(r))
+                    _scramble(r)                       # the caller owns what it was handed...
+                    arg[:] = [0x96] * (len(arg) + 1)   # ...and what it passed in
+                return ['ok', out]
+            impl = impl_call(run)
+            spec = ['ok', [expected[ei][1] for _, ei in order]]
+            bad_m = [m for m in models if m[0] != 'ok']
+            model = bad_m[0] if bad_m else ['ok', [models[ei][1] for _, ei in order]]
+            key = None
+            if impl != spec:
+                key = 'history-dependence'
+                for ei in sorted(set(ei for _, ei in order)):
+                    if _impl(parsers, cfg, datas[ei]) != expected[ei]:
+                        key = _blame(ctx, parsers, table, cfg, exprs[ei])
+                        break
+            ctx.bump('history_calls', len(order))
+            ctx.bump('history_repeats', len(order) - len(set(map(tuple, order))))
+            ctx.record('hist', a, impl=impl, spec=spec, model=model, in_domain=True, nontrivial=True, key=key)
         else:
             data = a[1]
             model = _norm(ans)
